@@ -10,8 +10,22 @@
 //! round of a case must give the same answers — relabeling invariance is checked by the judge comparing each
 //! round against the same definitional oracle on the abstract pair.
 //!
-//! StableGraph / MatrixGraph (not NodeCompactIndexable) and Csr / adj::List (no IntoNeighborsDirected) do not
-//! satisfy the bounds of these functions.
+//! StableGraph / MatrixGraph (not NodeCompactIndexable), Csr / adj::List (no IntoNeighborsDirected),
+//! UndirectedAdaptor / NodeFiltered / EdgeFiltered (no GetAdjacencyMatrix, no EdgeCount) do not satisfy the
+//! bounds of these functions.
+//!
+//! WAVE 6 — the corners of the public surface (docs/C13_api.md):
+//! * the iterator returned by `subgraph_isomorphisms_iter` overrides `size_hint`: `hint <at> <nm> <em>` lines
+//!   (size_hint of a fresh iterator after `at` calls of next()), judged by the driver; every other way of consuming
+//!   it (`count`, `last`, `nth`, `skip`, `step_by`, `fold`, `by_ref`, two iterators interleaved, `next` after the
+//!   end, size_hint between the calls) must agree with `next`: `iterlaw matcher … => ok | VIOLATED …`
+//! * "exotic" rounds: every other argument type that satisfies the bounds — `Reversed<&Graph>`, `Reversed<&GraphMap>`,
+//!   `Reversed<Reversed<&Graph>>`, `Reversed<&Acyclic<_>>`, `&Frozen<Graph>`, `Graph<_,_,_,u16>`, `Graph<_,_,_,usize>`,
+//!   `GraphMap` with non-default hashers (fxhash, ahash), `Graph<(), ()>`, `Graph<usize, f32>` with NaN weights, the
+//!   SAME object as both arguments; Graphs that were cleared and rebuilt, reversed in place, or filled by `clone_from`
+//! * "big" cases (too big for the enumerating oracle, judged by the proved mirror model): 10..18 nodes, the sizes
+//!   around the end of `size_hint`'s factorial table (19..23 nodes), Graph<u8> at its capacity (254 / 255 nodes)
+//! * the case line carries the build profile (`prof=debug|release`)
 use crate::common::*;
 use crate::graphs::*;
 use crate::rng::Rng;
@@ -21,12 +35,13 @@ use petgraph::algo::{
     subgraph_isomorphisms_iter,
 };
 use petgraph::data::DataMap;
-use petgraph::graph::{DiGraph, Graph, IndexType};
+use petgraph::graph::{DiGraph, Frozen, Graph, IndexType};
 use petgraph::graphmap::GraphMap;
 use petgraph::visit::{
-    EdgeCount, EdgeRef, GetAdjacencyMatrix, GraphProp, IntoEdgesDirected, IntoNeighborsDirected, IntoNodeIdentifiers,
-    NodeCompactIndexable, NodeIndexable,
+    Data, EdgeCount, EdgeRef, GetAdjacencyMatrix, GraphProp, IntoEdgesDirected, IntoNeighborsDirected, IntoNodeIdentifiers,
+    NodeCompactIndexable, NodeIndexable, Reversed,
 };
+use std::hash::BuildHasher;
 use petgraph::{Directed, EdgeType, Undirected};
 
 /// abstract graph + node weights
@@ -333,6 +348,16 @@ fn build_graph<Ty: EdgeType, Ix: IndexType>(rng: &mut Rng, ag: &AG, hist: bool) 
     let edge_order = random_perm(rng, ag.edges.len());
     let mut g = Graph::<usize, i64, Ty, Ix>::with_capacity(0, 0);
     let find = |g: &Graph<usize, i64, Ty, Ix>, a: usize| g.node_indices().find(|&x| g[x] == a).unwrap();
+    if hist && rng.chance(20) {
+        // clear, then reuse
+        let x = g.add_node(4000);
+        let y = g.add_node(4001);
+        g.add_edge(x, y, -5);
+        g.add_edge(y, y, -6);
+        g.clear();
+    }
+    // reversed in place at the end: build the reversed graph first
+    let flip = hist && rng.chance(20);
     for &a in &node_order {
         if hist && rng.chance(35) {
             g.add_node(1000 + rng.below(1000));
@@ -350,7 +375,18 @@ fn build_graph<Ty: EdgeType, Ix: IndexType>(rng: &mut Rng, ag: &AG, hist: bool) 
             std::mem::swap(&mut a, &mut b);
         }
         let (x, y) = (find(&g, a), find(&g, b));
-        g.add_edge(x, y, w);
+        if flip { g.add_edge(y, x, w) } else { g.add_edge(x, y, w) };
+    }
+    if flip {
+        g.reverse();
+    }
+    if hist && rng.chance(15) {
+        // the argument is a graph filled by clone_from over arbitrary prior contents
+        let mut h = Graph::<usize, i64, Ty, Ix>::with_capacity(2, 1);
+        let x = h.add_node(5000);
+        h.add_edge(x, x, -9);
+        h.clone_from(&g);
+        g = h;
     }
     if hist {
         loop {
@@ -372,9 +408,13 @@ fn build_graph<Ty: EdgeType, Ix: IndexType>(rng: &mut Rng, ag: &AG, hist: bool) 
 }
 
 fn build_map<Ty: EdgeType>(rng: &mut Rng, ag: &AG, hist: bool) -> GraphMap<usize, i64, Ty> {
+    build_map_h::<Ty, std::collections::hash_map::RandomState>(rng, ag, hist)
+}
+
+fn build_map_h<Ty: EdgeType, S: BuildHasher + Default + Clone>(rng: &mut Rng, ag: &AG, hist: bool) -> GraphMap<usize, i64, Ty, S> {
     let node_order = random_perm(rng, ag.n);
     let edge_order = random_perm(rng, ag.edges.len());
-    let mut g = GraphMap::<usize, i64, Ty>::new();
+    let mut g = GraphMap::<usize, i64, Ty, S>::with_capacity_and_hasher(0, 0, S::default());
     let mut dummies = vec![];
     for &a in &node_order {
         if hist && rng.chance(35) {
@@ -448,18 +488,35 @@ fn encode<Ty: EdgeType>(rng: &mut Rng, ag: &AG, need_data: bool) -> Enc<Ty> {
 // ------------------------------------------------------------------------------------------------
 // queries
 
+/// the f32 a weight code stands for (codes >= 2 are NaN)
+fn code_f32(c: i64) -> f32 {
+    if c >= 2 { f32::NAN } else { c as f32 }
+}
+
+fn f32_code(x: f32) -> i64 {
+    if x.is_nan() { 2 } else { x as i64 }
+}
+
 fn pred(k: &str, a: i64, b: i64) -> bool {
     match k {
         "t" => true,
         "f" => false,
         "eq" => a == b,
         "ne" => a != b,
-        _ => a <= b,
+        "le" => a <= b,
+        // IEEE comparisons on the f32 values the codes stand for
+        "feq" => code_f32(a) == code_f32(b),
+        "fne" => code_f32(a) != code_f32(b),
+        _ => code_f32(a) <= code_f32(b),
     }
 }
 
-fn pick_pred(rng: &mut Rng) -> &'static str {
-    ["t", "eq", "le", "ne", "f"][rng.weighted(&[25, 50, 15, 7, 3])]
+fn pick_pred(rng: &mut Rng, float: bool) -> &'static str {
+    if float {
+        ["t", "feq", "fle", "fne", "f"][rng.weighted(&[20, 45, 20, 12, 3])]
+    } else {
+        ["t", "eq", "le", "ne", "f"][rng.weighted(&[25, 50, 15, 7, 3])]
+    }
 }
 
 fn bool_ans(r: Option<bool>) -> String {
@@ -469,11 +526,28 @@ fn bool_ans(r: Option<bool>) -> String {
     }
 }
 
+/// the `graph …` view of one encoding; `wcode` = protocol code of an edge weight
+fn view_w<G>(ag: &AG, g: G, abs: &dyn Fn(G::NodeId) -> usize, wcode: &dyn Fn(&G::EdgeWeight) -> i64) -> String
+where
+    G: IntoNodeIdentifiers + IntoEdgesDirected + NodeIndexable + GraphProp + Data,
+{
+    view_line(ag, g, abs, &|er, used| eid_by_lookup(ag, abs(er.source()), abs(er.target()), wcode(er.weight()), used))
+}
+
 fn view_of<G>(ag: &AG, g: G, abs: &dyn Fn(G::NodeId) -> usize) -> String
 where
-    G: IntoNodeIdentifiers + IntoEdgesDirected + NodeIndexable + GraphProp + petgraph::visit::Data<EdgeWeight = i64>,
+    G: IntoNodeIdentifiers + IntoEdgesDirected + NodeIndexable + GraphProp + Data<EdgeWeight = i64>,
 {
-    view_line(ag, g, abs, &|er, used| eid_by_lookup(ag, abs(er.source()), abs(er.target()), *er.weight(), used))
+    view_w(ag, g, abs, &|w| *w)
+}
+
+fn plain_q<G0, G1>(ctx: &mut Ctx, g0: G0, g1: G1, qi: &str, qs: &str)
+where
+    G0: NodeCompactIndexable + EdgeCount + GetAdjacencyMatrix + GraphProp + IntoNeighborsDirected + Copy,
+    G1: NodeCompactIndexable + EdgeCount + GetAdjacencyMatrix + GraphProp<EdgeType = G0::EdgeType> + IntoNeighborsDirected + Copy,
+{
+    ctx.line(qi, &bool_ans(catch(|| is_isomorphic(g0, g1))));
+    ctx.line(qs, &bool_ans(catch(|| is_isomorphic_subgraph(g0, g1))));
 }
 
 fn plain<G0, G1>(ctx: &mut Ctx, g0: G0, g1: G1)
@@ -481,38 +555,172 @@ where
     G0: NodeCompactIndexable + EdgeCount + GetAdjacencyMatrix + GraphProp + IntoNeighborsDirected + Copy,
     G1: NodeCompactIndexable + EdgeCount + GetAdjacencyMatrix + GraphProp<EdgeType = G0::EdgeType> + IntoNeighborsDirected + Copy,
 {
-    ctx.line("iso", &bool_ans(catch(|| is_isomorphic(g0, g1))));
-    ctx.line("sub", &bool_ans(catch(|| is_isomorphic_subgraph(g0, g1))));
+    plain_q(ctx, g0, g1, "iso", "sub");
 }
 
 fn falling(n1: usize, n0: usize) -> usize {
     (0..n0).map(|k| n1.saturating_sub(k)).product()
 }
 
-#[allow(clippy::too_many_arguments)]
-fn semantic<G0, G1>(ctx: &mut Ctx, rng: &mut Rng, g0: G0, g1: G1, w0: &WG, w1: &WG, abs0: &dyn Fn(G0::NodeId) -> usize, abs1: &dyn Fn(G1::NodeId) -> usize)
+/// how the weights of the two encodings are turned into the protocol's weight codes (what the predicates see)
+struct Codes<'a, G0: Data, G1: Data> {
+    n0: &'a dyn Fn(&G0::NodeWeight) -> i64,
+    n1: &'a dyn Fn(&G1::NodeWeight) -> i64,
+    e0: &'a dyn Fn(&G0::EdgeWeight) -> i64,
+    e1: &'a dyn Fn(&G1::EdgeWeight) -> i64,
+    /// f32 weights: IEEE predicates
+    float: bool,
+}
+
+fn positions(len: usize) -> Vec<usize> {
+    let mut v = vec![0, 1, 2, len / 2, len.saturating_sub(1), len, len + 1];
+    v.sort();
+    v.dedup();
+    v
+}
+
+/// Laws of the `Iterator` contract for the (non-`Clone`) iterator of `subgraph_isomorphisms_iter`: `mk` makes a
+/// fresh iterator over the same arguments.  Every way of consuming it must describe the sequence that `next`
+/// yields.  (The UPPER bound of size_hint is judged by the driver, `hint` lines; at most `cap` vectors can exist.)
+fn matcher_laws<I, F>(mk: &F, cap: usize) -> Option<String>
 where
-    G0: NodeCompactIndexable + EdgeCount + DataMap + petgraph::visit::Data<NodeWeight = usize, EdgeWeight = i64> + GetAdjacencyMatrix + GraphProp + IntoEdgesDirected + Copy,
-    G1: NodeCompactIndexable + EdgeCount + DataMap + petgraph::visit::Data<NodeWeight = usize, EdgeWeight = i64> + GetAdjacencyMatrix + GraphProp<EdgeType = G0::EdgeType> + IntoEdgesDirected + Copy,
+    I: Iterator<Item = Vec<usize>>,
+    F: Fn() -> Option<I>,
 {
-    let (n0, n1) = (w0.ag.n, w1.ag.n);
-    let (nw0, nw1) = (&w0.nw, &w1.nw);
+    let it = match mk() {
+        Some(it) => it,
+        None => return if mk().is_some() { Some("None, then Some(..) for the same arguments".into()) } else { None },
+    };
+    let v: Vec<Vec<usize>> = it.take(cap + 1).collect();
+    if v.len() > cap {
+        return Some(format!("more than {} vectors are yielded", cap));
+    }
+    let n = v.len();
+    macro_rules! fresh {
+        () => {
+            match mk() {
+                Some(it) => it,
+                None => return Some("Some(..), then None for the same arguments".into()),
+            }
+        };
+    }
+    let v2: Vec<Vec<usize>> = fresh!().take(cap + 1).collect();
+    if v2 != v {
+        return Some(format!("a second iterator over the same arguments yields {:?}, the first yielded {:?}", v2, v));
+    }
+    let c = fresh!().count();
+    if c != n {
+        return Some(format!("count() = {} but {} items are yielded", c, n));
+    }
+    if fresh!().last() != v.last().cloned() {
+        return Some("last() is not the last item yielded".into());
+    }
+    for k in positions(n) {
+        let mut a = fresh!();
+        let got = a.nth(k);
+        let want = v.get(k).cloned();
+        if got != want {
+            return Some(format!("nth({}) = {:?}, stepping with next gives {:?}", k, got, want));
+        }
+        let ra: Vec<Vec<usize>> = a.take(cap + 1).collect();
+        let rb: Vec<Vec<usize>> = v[(k + 1).min(n)..].to_vec();
+        if ra != rb {
+            return Some(format!("after nth({}) the remaining items are {:?}, after {} x next they are {:?}", k, ra, k + 1, rb));
+        }
+        let mut m = fresh!();
+        for _ in 0..k.min(n) {
+            m.next();
+        }
+        let rest = n - k.min(n);
+        let (lo, _) = m.size_hint();
+        if lo > rest {
+            return Some(format!("after {} items size_hint's lower bound is {} but {} items remain", k.min(n), lo, rest));
+        }
+        let sk: Vec<Vec<usize>> = fresh!().skip(k).take(cap + 1).collect();
+        if sk != v[k.min(n)..] {
+            return Some(format!("skip({}) yields {:?}, expected {:?}", k, sk, &v[k.min(n)..]));
+        }
+    }
+    for step in [2usize, 3] {
+        let st: Vec<Vec<usize>> = fresh!().step_by(step).take(cap + 1).collect();
+        let w: Vec<Vec<usize>> = v.iter().step_by(step).cloned().collect();
+        if st != w {
+            return Some(format!("step_by({}) yields {:?}, every {}th item is {:?}", step, st, step, w));
+        }
+    }
+    let f = fresh!().fold(0usize, |acc, _| acc + 1);
+    if f != n {
+        return Some(format!("fold visits {} items, next visits {}", f, n));
+    }
+    // by_ref: a prefix taken through a borrow, then the rest from the same iterator
+    let mut b = fresh!();
+    let mut front: Vec<Vec<usize>> = b.by_ref().take(n / 2).collect();
+    front.extend(b.take(cap + 1));
+    if front != v {
+        return Some(format!("take({}) through by_ref() and then the rest yields {:?}, the sequence is {:?}", n / 2, front, v));
+    }
+    // two live iterators over the same graphs do not disturb each other
+    let (mut x, mut y) = (fresh!(), fresh!());
+    let (mut xs, mut ys) = (vec![], vec![]);
+    for _ in 0..cap + 2 {
+        let (a, b) = (x.next(), y.next());
+        if a.is_none() && b.is_none() {
+            break;
+        }
+        xs.extend(a);
+        ys.extend(b);
+    }
+    if xs != v || ys != v {
+        return Some(format!("two interleaved iterators yield {:?} and {:?}, one alone yields {:?}", xs, ys, v));
+    }
+    // size_hint has no side effect
+    let mut h = fresh!();
+    let mut hs = vec![];
+    for _ in 0..cap + 2 {
+        let _ = h.size_hint();
+        match h.next() {
+            Some(x) => hs.push(x),
+            None => break,
+        }
+    }
+    if hs != v {
+        return Some(format!("with size_hint() called before every next() the items are {:?}, without {:?}", hs, v));
+    }
+    // after None the iterator keeps answering None
+    let mut e = fresh!();
+    for _ in 0..n {
+        e.next();
+    }
+    if e.next().is_some() || e.next().is_some() || e.next().is_some() {
+        return Some("an item is yielded after the sequence ended".into());
+    }
+    None
+}
+
+/// the three requests with predicates (+ size_hint and iterator laws of the iterator); `n0`, `n1` = node counts
+#[allow(clippy::too_many_arguments)]
+fn semantic<G0, G1>(ctx: &mut Ctx, rng: &mut Rng, g0: G0, g1: G1, n0: usize, n1: usize, c: &Codes<G0, G1>, abs0: &dyn Fn(G0::NodeId) -> usize, abs1: &dyn Fn(G1::NodeId) -> usize)
+where
+    G0: NodeCompactIndexable + EdgeCount + DataMap + GetAdjacencyMatrix + GraphProp + IntoEdgesDirected + Copy,
+    G1: NodeCompactIndexable + EdgeCount + DataMap + GetAdjacencyMatrix + GraphProp<EdgeType = G0::EdgeType> + IntoEdgesDirected + Copy,
+{
     for q in ["isom", "subm", "iter"] {
-        let (nk, ek) = (pick_pred(rng), pick_pred(rng));
-        let nmf = |a: &usize, b: &usize| pred(nk, nw0[*a], nw1[*b]);
-        let emf = |x: &i64, y: &i64| pred(ek, *x, *y);
+        let (nk, ek) = (pick_pred(rng, c.float), pick_pred(rng, c.float));
+        let nmf = |a: &G0::NodeWeight, b: &G1::NodeWeight| pred(nk, (c.n0)(a), (c.n1)(b));
+        let emf = |x: &G0::EdgeWeight, y: &G1::EdgeWeight| pred(ek, (c.e0)(x), (c.e1)(y));
         let req = format!("{} {} {}", q, nk, ek);
         match q {
             "isom" => ctx.line(&req, &bool_ans(catch(|| is_isomorphic_matching(g0, g1, nmf, emf)))),
             "subm" => ctx.line(&req, &bool_ans(catch(|| is_isomorphic_subgraph_matching(g0, g1, nmf, emf)))),
             _ => {
+                let cap = falling(n1, n0) + 2;
+                let mut total: Option<usize> = None;
                 let r = catch(|| {
                     let (mut nmf, mut emf) = (nmf, emf);
                     let res = subgraph_isomorphisms_iter(&g0, &g1, &mut nmf, &mut emf);
                     let out = match res {
                         None => "none".to_string(),
                         Some(mut it) => {
-                            let cap = falling(n1, n0) + 2;
                             let mut ms: Vec<String> = vec![];
                             let mut ended = false;
                             for _ in 0..cap {
@@ -524,15 +732,63 @@ where
                                     }
                                 }
                             }
-                            if !ended {
-                                ended = it.next().is_none();
+                            let fin = if !ended {
+                                if it.next().is_none() { "end" } else { "more" }
+                            } else if it.next().is_some() || it.next().is_some() {
+                                // `next` after the end: every mapping is to be yielded once
+                                "revived"
+                            } else {
+                                "end"
+                            };
+                            if fin == "end" {
+                                total = Some(ms.len());
                             }
-                            format!("some {} {}", list(ms), if ended { "end" } else { "more" })
+                            format!("some {} {}", list(ms), fin)
                         }
                     };
                     out
                 });
                 ctx.line(&req, &r.unwrap_or("panic".into()));
+                // size_hint of a fresh iterator: before the first next(), and somewhere later (also past the end)
+                let t = total.unwrap_or(0);
+                let ats = [0, 1 + rng.below(t + 2)];
+                for at in ats {
+                    let r = catch(|| {
+                        let (mut nmf, mut emf) = (nmf, emf);
+                        let out = match subgraph_isomorphisms_iter(&g0, &g1, &mut nmf, &mut emf) {
+                            None => "none".to_string(),
+                            Some(mut it) => {
+                                let mut consumed = 0;
+                                for _ in 0..at {
+                                    if it.next().is_none() {
+                                        break;
+                                    }
+                                    consumed += 1;
+                                }
+                                let (lo, hi) = it.size_hint();
+                                format!("{} {} {}", consumed, lo, hi.map_or("inf".to_string(), |h| h.to_string()))
+                            }
+                        };
+                        out
+                    });
+                    ctx.line(&format!("hint {} {} {}", at, nk, ek), &r.unwrap_or("panic".into()));
+                }
+                // the other ways of consuming the iterator (each makes ~40 fresh iterators: small answers only)
+                if total.map_or(false, |t| t <= 150) && rng.chance(45) {
+                    let (g0r, g1r) = (&g0, &g1);
+                    let mk = || {
+                        // the iterator borrows its predicates mutably for its whole life: leak a copy per iterator
+                        let nm = Box::leak(Box::new(nmf));
+                        let em = Box::leak(Box::new(emf));
+                        subgraph_isomorphisms_iter(g0r, g1r, nm, em)
+                    };
+                    let r = catch(|| matcher_laws(&mk, cap));
+                    let verdict = match r {
+                        Some(x) => crate::iterlaws::law_verdict(x),
+                        None => "VIOLATED a way of consuming the iterator panicked".to_string(),
+                    };
+                    ctx.line(&format!("iterlaw matcher {} {}", nk, ek), &verdict);
+                }
             }
         }
     }
@@ -665,7 +921,8 @@ macro_rules! round_impl {
             if e0.has_data() && e1.has_data() {
                 on_data!($k, &e0, g0, a0, {
                     on_data!($k, &e1, g1, a1, {
-                        semantic(ctx, rng, g0, g1, w0, w1, &a0, &a1);
+                        let c = Codes { n0: &|a: &usize| w0.nw[*a], n1: &|a: &usize| w1.nw[*a], e0: &|x: &i64| *x, e1: &|x: &i64| *x, float: false };
+                        semantic(ctx, rng, g0, g1, w0.ag.n, w1.ag.n, &c, &a0, &a1);
                     });
                 });
             }
@@ -674,6 +931,407 @@ macro_rules! round_impl {
 }
 round_impl!(round_d, Directed, D);
 round_impl!(round_u, Undirected, U);
+
+// ------------------------------------------------------------------------------------------------
+// wave 6: the other argument types that satisfy the trait bounds ("exotic" rounds)
+
+fn rev_ag(ag: &AG) -> AG {
+    AG { directed: ag.directed, n: ag.n, edges: ag.edges.iter().map(|&(a, b, w)| (b, a, w)).collect() }
+}
+
+/// views + the five functions for a pair of encodings with weight access (node weight = abstract id, edge weight i64)
+#[allow(clippy::too_many_arguments)]
+fn run_full<G0, G1>(ctx: &mut Ctx, rng: &mut Rng, w0: &WG, w1: &WG, g0: G0, g1: G1, abs0: &dyn Fn(G0::NodeId) -> usize, abs1: &dyn Fn(G1::NodeId) -> usize, name0: &str, name1: &str)
+where
+    G0: NodeCompactIndexable + EdgeCount + DataMap + Data<NodeWeight = usize, EdgeWeight = i64> + GetAdjacencyMatrix + GraphProp + IntoEdgesDirected + IntoNodeIdentifiers + Copy,
+    G1: NodeCompactIndexable + EdgeCount + DataMap + Data<NodeWeight = usize, EdgeWeight = i64> + GetAdjacencyMatrix + GraphProp<EdgeType = G0::EdgeType> + IntoEdgesDirected + IntoNodeIdentifiers + Copy,
+{
+    let c = Codes { n0: &|a: &usize| w0.nw[*a], n1: &|a: &usize| w1.nw[*a], e0: &|x: &i64| *x, e1: &|x: &i64| *x, float: false };
+    run_coded(ctx, rng, w0, w1, g0, g1, abs0, abs1, name0, name1, &c);
+}
+
+/// the same for arbitrary weight types (`c` turns weights into protocol codes)
+#[allow(clippy::too_many_arguments)]
+fn run_coded<G0, G1>(ctx: &mut Ctx, rng: &mut Rng, w0: &WG, w1: &WG, g0: G0, g1: G1, abs0: &dyn Fn(G0::NodeId) -> usize, abs1: &dyn Fn(G1::NodeId) -> usize, name0: &str, name1: &str, c: &Codes<G0, G1>)
+where
+    G0: NodeCompactIndexable + EdgeCount + DataMap + GetAdjacencyMatrix + GraphProp + IntoEdgesDirected + IntoNodeIdentifiers + Copy,
+    G1: NodeCompactIndexable + EdgeCount + DataMap + GetAdjacencyMatrix + GraphProp<EdgeType = G0::EdgeType> + IntoEdgesDirected + IntoNodeIdentifiers + Copy,
+{
+    let v = view_w(&w0.ag, g0, abs0, c.e0);
+    ctx.line(&format!("g0 {} {} enc={}", &v[6..], nw_field(w0), name0), "ok");
+    let v = view_w(&w1.ag, g1, abs1, c.e1);
+    ctx.line(&format!("g1 {} {} enc={}", &v[6..], nw_field(w1), name1), "ok");
+    plain(ctx, g0, g1);
+    semantic(ctx, rng, g0, g1, w0.ag.n, w1.ag.n, c, abs0, abs1);
+}
+
+/// views + the two plain functions (encodings without `DataMap`)
+#[allow(clippy::too_many_arguments)]
+fn run_plain<G0, G1>(ctx: &mut Ctx, w0: &WG, w1: &WG, g0: G0, g1: G1, abs0: &dyn Fn(G0::NodeId) -> usize, abs1: &dyn Fn(G1::NodeId) -> usize, name0: &str, name1: &str)
+where
+    G0: NodeCompactIndexable + EdgeCount + Data<EdgeWeight = i64> + GetAdjacencyMatrix + GraphProp + IntoEdgesDirected + IntoNodeIdentifiers + Copy,
+    G1: NodeCompactIndexable + EdgeCount + Data<EdgeWeight = i64> + GetAdjacencyMatrix + GraphProp<EdgeType = G0::EdgeType> + IntoEdgesDirected + IntoNodeIdentifiers + Copy,
+{
+    let v = view_of(&w0.ag, g0, abs0);
+    ctx.line(&format!("g0 {} {} enc={}", &v[6..], nw_field(w0), name0), "ok");
+    let v = view_of(&w1.ag, g1, abs1);
+    ctx.line(&format!("g1 {} {} enc={}", &v[6..], nw_field(w1), name1), "ok");
+    plain(ctx, g0, g1);
+}
+
+/// the abstract pair without weights (for `Graph<(), ()>`)
+fn stripped(w: &WG) -> WG {
+    WG { ag: AG { directed: w.ag.directed, n: w.ag.n, edges: w.ag.edges.iter().map(|&(a, b, _)| (a, b, 0)).collect() }, nw: vec![0; w.ag.n] }
+}
+
+/// some weights become code 2 (= NaN)
+fn with_nans(rng: &mut Rng, w: &WG) -> WG {
+    let mut r = w.clone();
+    for e in r.ag.edges.iter_mut() {
+        if rng.chance(30) {
+            e.2 = 2;
+        }
+    }
+    for x in r.nw.iter_mut() {
+        if rng.chance(25) {
+            *x = 2;
+        }
+    }
+    r
+}
+
+/// `Graph<(), ()>`: nodes are identified by their insertion position; returns the graph and index ↦ abstract id
+fn build_unit<Ty: EdgeType>(rng: &mut Rng, ag: &AG) -> (Graph<(), (), Ty, u32>, Vec<usize>) {
+    let node_order = random_perm(rng, ag.n);
+    let edge_order = random_perm(rng, ag.edges.len());
+    let mut pos = vec![0; ag.n];
+    let mut g = Graph::<(), (), Ty, u32>::default();
+    for (i, &a) in node_order.iter().enumerate() {
+        pos[a] = i;
+        g.add_node(());
+    }
+    for &k in &edge_order {
+        let (mut a, mut b, _) = ag.edges[k];
+        if !ag.directed && rng.chance(50) {
+            std::mem::swap(&mut a, &mut b);
+        }
+        g.add_edge(petgraph::graph::NodeIndex::new(pos[a]), petgraph::graph::NodeIndex::new(pos[b]), ());
+    }
+    (g, node_order)
+}
+
+const EXOTIC: [&str; 11] = ["ix-u16-usize", "reversed-both", "reversed-one", "frozen-both", "frozen-one", "map-hashers", "reversed-map", "reversed-twice", "unit-weights", "f32-nan", "same-object"];
+
+fn round_exotic<Ty: EdgeType>(ctx: &mut Ctx, rng: &mut Rng, w0: &WG, w1: &WG) {
+    let hist = rng.chance(40);
+    let kind = rng.weighted(&[12, 12, 10, 10, 8, 9, 8, 6, 9, 10, 6]);
+    ctx.line(&format!("profile exotic={}", EXOTIC[kind]), "ok");
+    match kind {
+        0 => {
+            if rng.chance(50) {
+                let a = build_graph::<Ty, u16>(rng, &w0.ag, hist);
+                let b = build_graph::<Ty, usize>(rng, &w1.ag, hist);
+                run_full(ctx, rng, w0, w1, &a, &b, &|n| a[n], &|n| b[n], "Graph-u16", "Graph-usize");
+            } else {
+                let a = build_graph::<Ty, usize>(rng, &w0.ag, hist);
+                let b = build_graph::<Ty, u16>(rng, &w1.ag, hist);
+                run_full(ctx, rng, w0, w1, &a, &b, &|n| a[n], &|n| b[n], "Graph-usize", "Graph-u16");
+            }
+        }
+        1 => {
+            // the storage holds the reversed graph, the argument is the adaptor
+            let a = build_graph::<Ty, u32>(rng, &rev_ag(&w0.ag), hist);
+            let b = build_graph::<Ty, u8>(rng, &rev_ag(&w1.ag), hist);
+            run_full(ctx, rng, w0, w1, Reversed(&a), Reversed(&b), &|n| a[n], &|n| b[n], "Reversed-Graph-u32", "Reversed-Graph-u8");
+        }
+        2 => {
+            if rng.chance(50) {
+                let a = build_graph::<Ty, u32>(rng, &rev_ag(&w0.ag), hist);
+                let b = build_graph::<Ty, u32>(rng, &w1.ag, hist);
+                run_full(ctx, rng, w0, w1, Reversed(&a), &b, &|n| a[n], &|n| b[n], "Reversed-Graph-u32", "Graph-u32");
+            } else {
+                let a = build_graph::<Ty, u32>(rng, &w0.ag, hist);
+                let b = build_graph::<Ty, u32>(rng, &rev_ag(&w1.ag), hist);
+                run_full(ctx, rng, w0, w1, &a, Reversed(&b), &|n| a[n], &|n| b[n], "Graph-u32", "Reversed-Graph-u32");
+            }
+        }
+        3 => {
+            // (`&Frozen<Graph>` lacks the Into* traits: they are delegated to `G` by value; `&Frozen<&Graph>` has them)
+            let a = build_graph::<Ty, u32>(rng, &w0.ag, hist);
+            let b = build_graph::<Ty, u8>(rng, &w1.ag, hist);
+            let (mut ra, mut rb) = (&a, &b);
+            let (fa, fb) = (Frozen::new(&mut ra), Frozen::new(&mut rb));
+            run_full(ctx, rng, w0, w1, &fa, &fb, &|n| a[n], &|n| b[n], "Frozen-Graph-u32", "Frozen-Graph-u8");
+        }
+        4 => {
+            let a = build_graph::<Ty, u32>(rng, &w0.ag, hist);
+            let b = build_graph::<Ty, u32>(rng, &w1.ag, hist);
+            if rng.chance(50) {
+                let mut ra = &a;
+                let fa = Frozen::new(&mut ra);
+                run_full(ctx, rng, w0, w1, &fa, &b, &|n| a[n], &|n| b[n], "Frozen-Graph-u32", "Graph-u32");
+            } else {
+                let mut rb = &b;
+                let fb = Frozen::new(&mut rb);
+                run_full(ctx, rng, w0, w1, &a, &fb, &|n| a[n], &|n| b[n], "Graph-u32", "Frozen-Graph-u32");
+            }
+        }
+        5 => {
+            let a = build_map_h::<Ty, fxhash::FxBuildHasher>(rng, &w0.ag, hist);
+            let b = build_map_h::<Ty, ahash::RandomState>(rng, &w1.ag, hist);
+            run_plain(ctx, w0, w1, &a, &b, &|n| n, &|n| n, "GraphMap-fxhash", "GraphMap-ahash");
+        }
+        6 => {
+            let a = build_map(rng, &rev_ag(&w0.ag), hist);
+            if rng.chance(50) {
+                let b = build_graph::<Ty, u32>(rng, &w1.ag, hist);
+                run_plain(ctx, w0, w1, Reversed(&a), &b, &|n| n, &|n| b[n], "Reversed-GraphMap", "Graph-u32");
+            } else {
+                let b = build_map_h::<Ty, fxhash::FxBuildHasher>(rng, &rev_ag(&w1.ag), hist);
+                run_plain(ctx, w0, w1, Reversed(&a), Reversed(&b), &|n| n, &|n| n, "Reversed-GraphMap", "Reversed-GraphMap-fxhash");
+            }
+        }
+        7 => {
+            let a = build_graph::<Ty, u32>(rng, &w0.ag, hist);
+            let b = build_graph::<Ty, u32>(rng, &w1.ag, hist);
+            run_full(ctx, rng, w0, w1, Reversed(Reversed(&a)), &b, &|n| a[n], &|n| b[n], "Reversed-Reversed-Graph-u32", "Graph-u32");
+        }
+        8 => {
+            let (s0, s1) = (stripped(w0), stripped(w1));
+            let (a, oa) = build_unit::<Ty>(rng, &s0.ag);
+            let (b, ob) = build_unit::<Ty>(rng, &s1.ag);
+            let c = Codes { n0: &|_: &()| 0, n1: &|_: &()| 0, e0: &|_: &()| 0, e1: &|_: &()| 0, float: false };
+            run_coded(ctx, rng, &s0, &s1, &a, &b, &|n| oa[n.index()], &|n| ob[n.index()], "Graph-unit", "Graph-unit", &c);
+        }
+        9 => {
+            let (f0, f1) = (with_nans(rng, w0), with_nans(rng, w1));
+            let a = build_graph::<Ty, u16>(rng, &f0.ag, hist).map(|_, n| *n, |_, e| code_f32(*e));
+            let b = build_graph::<Ty, u32>(rng, &f1.ag, hist).map(|_, n| *n, |_, e| code_f32(*e));
+            let c = Codes { n0: &|x: &usize| f0.nw[*x], n1: &|x: &usize| f1.nw[*x], e0: &|x: &f32| f32_code(*x), e1: &|x: &f32| f32_code(*x), float: true };
+            run_coded(ctx, rng, &f0, &f1, &a, &b, &|n| a[n], &|n| b[n], "Graph-f32-u16", "Graph-f32-u32", &c);
+        }
+        _ => {
+            // the SAME object as pattern and target
+            if rng.chance(50) {
+                let a = build_graph::<Ty, u32>(rng, &w0.ag, hist);
+                run_full(ctx, rng, w0, w0, &a, &a, &|n| a[n], &|n| a[n], "Graph-u32", "same");
+            } else {
+                let b = build_graph::<Ty, u8>(rng, &rev_ag(&w1.ag), hist);
+                run_full(ctx, rng, w1, w1, Reversed(&b), Reversed(&b), &|n| b[n], &|n| b[n], "Reversed-Graph-u8", "same");
+            }
+        }
+    }
+}
+
+/// directed only: `Reversed<&Acyclic<DiGraph>>`
+fn round_exotic_d(ctx: &mut Ctx, rng: &mut Rng, w0: &WG, w1: &WG) {
+    if is_dag(&w0.ag) && rng.chance(40) {
+        let hist = rng.chance(40);
+        let g = build_graph::<Directed, u32>(rng, &rev_ag(&w0.ag), hist);
+        if let Ok(a) = Acyclic::try_from_graph(g) {
+            ctx.line("profile exotic=reversed-acyclic", "ok");
+            if is_dag(&w1.ag) && rng.chance(60) {
+                let h = build_graph::<Directed, u32>(rng, &w1.ag, hist);
+                if let Ok(b) = Acyclic::try_from_graph(h) {
+                    run_full(ctx, rng, w0, w1, Reversed(&a), &b, &|n| a.inner()[n], &|n| b.inner()[n], "Reversed-Acyclic-DiGraph", "Acyclic-DiGraph");
+                    return;
+                }
+            }
+            let b = build_graph::<Directed, u8>(rng, &w1.ag, hist);
+            run_full(ctx, rng, w0, w1, Reversed(&a), &b, &|n| a.inner()[n], &|n| b[n], "Reversed-Acyclic-DiGraph", "Graph-u8");
+            return;
+        }
+    }
+    round_exotic::<Directed>(ctx, rng, w0, w1);
+}
+
+// ------------------------------------------------------------------------------------------------
+// wave 6: pairs too big for the enumerating oracle (judged by the proved mirror model)
+
+/// identity with a few transpositions of neighbouring positions (keeps the search of VF2 short)
+fn near_identity(rng: &mut Rng, n: usize) -> Vec<usize> {
+    let mut p: Vec<usize> = (0..n).collect();
+    if n >= 2 {
+        for _ in 0..rng.below(3) {
+            let i = rng.below(n - 1);
+            p.swap(i, i + 1);
+        }
+    }
+    p
+}
+
+fn big_requests<G0, G1>(ctx: &mut Ctx, rng: &mut Rng, w0: &WG, w1: &WG, g0: G0, g1: G1, abs0: &dyn Fn(G0::NodeId) -> usize, abs1: &dyn Fn(G1::NodeId) -> usize, name0: &str, name1: &str, search: bool)
+where
+    G0: NodeCompactIndexable + EdgeCount + DataMap + Data<NodeWeight = usize, EdgeWeight = i64> + GetAdjacencyMatrix + GraphProp + IntoEdgesDirected + IntoNodeIdentifiers + Copy,
+    G1: NodeCompactIndexable + EdgeCount + DataMap + Data<NodeWeight = usize, EdgeWeight = i64> + GetAdjacencyMatrix + GraphProp<EdgeType = G0::EdgeType> + IntoEdgesDirected + IntoNodeIdentifiers + Copy,
+{
+    let v = view_of(&w0.ag, g0, abs0);
+    ctx.line(&format!("g0 {} {} enc={}", &v[6..], nw_field(w0), name0), "ok");
+    let v = view_of(&w1.ag, g1, abs1);
+    ctx.line(&format!("g1 {} {} enc={}", &v[6..], nw_field(w1), name1), "ok");
+    let (n0, n1) = (w0.ag.n, w1.ag.n);
+    let (nw0, nw1) = (&w0.nw, &w1.nw);
+    let (nk, ek) = (["t", "eq", "le"][rng.weighted(&[30, 50, 20])], ["t", "eq", "le"][rng.weighted(&[30, 50, 20])]);
+    let nmf = |a: &usize, b: &usize| pred(nk, nw0[*a], nw1[*b]);
+    let emf = |x: &i64, y: &i64| pred(ek, *x, *y);
+    // size_hint of a fresh iterator (no search)
+    let r = catch(|| {
+        let (mut nmf, mut emf) = (nmf, emf);
+        let out = match subgraph_isomorphisms_iter(&g0, &g1, &mut nmf, &mut emf) {
+            None => "none".to_string(),
+            Some(it) => {
+                let (lo, hi) = it.size_hint();
+                format!("0 {} {}", lo, hi.map_or("inf".to_string(), |h| h.to_string()))
+            }
+        };
+        out
+    });
+    ctx.line(&format!("bhint {} {}", nk, ek), &r.unwrap_or("panic".into()));
+    if !search {
+        return;
+    }
+    if n0 > 100 {
+        // (every request costs the driver a full consistency check of two 255-node encodings: three of them)
+        ctx.line("biso", &bool_ans(catch(|| is_isomorphic(g0, g1))));
+        ctx.line(&format!("bsub {} {}", nk, ek), &bool_ans(catch(|| is_isomorphic_subgraph_matching(g0, g1, nmf, emf))));
+        return;
+    }
+    plain_q(ctx, g0, g1, "biso", "bsub");
+    ctx.line(&format!("biso {} {}", nk, ek), &bool_ans(catch(|| is_isomorphic_matching(g0, g1, nmf, emf))));
+    ctx.line(&format!("bsub {} {}", nk, ek), &bool_ans(catch(|| is_isomorphic_subgraph_matching(g0, g1, nmf, emf))));
+    let k = 1 + rng.below(3);
+    let r = catch(|| {
+        let (mut nmf, mut emf) = (nmf, emf);
+        let out = match subgraph_isomorphisms_iter(&g0, &g1, &mut nmf, &mut emf) {
+            None => "none".to_string(),
+            Some(mut it) => {
+                let mut ms: Vec<String> = vec![];
+                let mut ended = false;
+                for _ in 0..k {
+                    match it.next() {
+                        Some(v) => ms.push(fmt_mapping(g0, g1, abs0, abs1, &v, n0, n1)),
+                        None => {
+                            ended = true;
+                            break;
+                        }
+                    }
+                }
+                if !ended {
+                    ended = it.next().is_none();
+                }
+                format!("some {} {}", list(ms), if ended { "end" } else { "cut" })
+            }
+        };
+        out
+    });
+    ctx.line(&format!("biter {} {} {}", k, nk, ek), &r.unwrap_or("panic".into()));
+}
+
+fn big_typed<Ty: EdgeType>(ctx: &mut Ctx, rng: &mut Rng, w0: &WG, w1: &WG, kind: &str, search: bool) {
+    match kind {
+        "u8cap" => {
+            let a = build_graph::<Ty, u8>(rng, &w0.ag, false);
+            let b = build_graph::<Ty, u8>(rng, &w1.ag, false);
+            big_requests(ctx, rng, w0, w1, &a, &b, &|n| a[n], &|n| b[n], "Graph-u8", "Graph-u8", search);
+        }
+        _ => match rng.below(3) {
+            0 => {
+                let a = build_graph::<Ty, u32>(rng, &w0.ag, false);
+                let b = build_graph::<Ty, u16>(rng, &w1.ag, false);
+                big_requests(ctx, rng, w0, w1, &a, &b, &|n| a[n], &|n| b[n], "Graph-u32", "Graph-u16", search);
+            }
+            1 => {
+                // (u16: a dense 23-node digraph has more than the 255 edges a Graph<u8> can hold)
+                let a = build_graph::<Ty, u16>(rng, &rev_ag(&w0.ag), false);
+                let b = build_graph::<Ty, u32>(rng, &rev_ag(&w1.ag), false);
+                big_requests(ctx, rng, w0, w1, Reversed(&a), Reversed(&b), &|n| a[n], &|n| b[n], "Reversed-Graph-u16", "Reversed-Graph-u32", search);
+            }
+            _ => {
+                let a = build_graph::<Ty, u32>(rng, &w0.ag, false);
+                let b = build_graph::<Ty, usize>(rng, &w1.ag, false);
+                let mut ra = &a;
+                let fa = Frozen::new(&mut ra);
+                big_requests(ctx, rng, w0, w1, &fa, &b, &|n| a[n], &|n| b[n], "Frozen-Graph-u32", "Graph-usize", search);
+            }
+        },
+    }
+}
+
+/// build_graph with the identity insertion order is not available (it permutes), so the labeling of the encodings
+/// is random; what keeps VF2's search short is that BOTH arguments get the same near-identity relation between
+/// abstract ids — the abstract pair itself is (g, near-identity relabeled copy of g) — and that the graphs are
+/// rigid enough (G(n,p) with p around 1/2) for wrong branches to die after a few levels.
+fn gen_big(rng: &mut Rng) -> (WG, WG, &'static str, bool) {
+    let directed = rng.chance(55);
+    let loops = rng.chance(45);
+    let kind = rng.weighted(&[46, 46, 8]);
+    let (n, name): (usize, &'static str) = match kind {
+        0 => (10 + rng.below(9), "big-medium"),
+        1 => (*rng.pick(&[19usize, 20, 20, 21, 21, 22, 23]), "big-table"),
+        _ => (*rng.pick(&[254usize, 255]), "big-u8cap"),
+    };
+    let mut ag = if kind == 2 {
+        // a long path / cycle with a few chords: cheap for the search, fills Graph<u8> to its last index
+        let mut ag = AG { directed, n, edges: vec![] };
+        for a in 0..n - 1 {
+            add_simple(&mut ag, a, a + 1, 0, loops);
+        }
+        if rng.chance(50) {
+            add_simple(&mut ag, n - 1, 0, 0, loops);
+        }
+        // Graph<u8> holds at most 255 edges as well: sometimes fill it exactly
+        let room = 255 - ag.edges.len();
+        let want = if rng.chance(40) { room } else { rng.below(room + 1) };
+        for _ in 0..4 * want {
+            if ag.edges.len() >= 255 - room + want {
+                break;
+            }
+            let (a, b) = (rng.below(n), rng.below(n));
+            add_simple(&mut ag, a, b, 0, loops);
+        }
+        ag
+    } else {
+        let pct = *rng.pick(&[35u32, 50, 60]);
+        gnp(rng, directed, n, pct, loops)
+    };
+    let nw = rand_weights(rng, &mut ag);
+    let w0 = WG { ag, nw };
+    let p = if kind == 2 { (0..n).collect() } else { near_identity(rng, n) };
+    let mut w1 = relabeled(rng, &w0, &p);
+    let mut search = true;
+    match rng.weighted(&[50, 15, 15, 20]) {
+        0 => {}
+        1 if kind != 2 => {
+            // one more target node (joined to a few others): subgraph yes, isomorphic no (early rejection)
+            w1.ag.n += 1;
+            w1.nw.push(rng.below(2) as i64);
+            for _ in 0..rng.below(3) {
+                let b = rng.below(n);
+                add_simple(&mut w1.ag, n, b, 0, loops);
+            }
+        }
+        2 if w0.ag.edges.len() < 255 => {
+            // the pattern has one more edge: both early rejections
+            let (a, b) = (rng.below(n), rng.below(n));
+            let mut g = w0.clone();
+            if add_simple(&mut g.ag, a, b, 0, loops) {
+                return (g, w1, name, true);
+            }
+        }
+        1 | 2 => {}
+        _ => {
+            // size_hint only (no search): pattern and target unrelated, also with more target nodes
+            search = false;
+            if kind != 2 {
+                let n1 = n + rng.below(3);
+                let mut b = gnp(rng, directed, n1, 40, loops);
+                let nw = rand_weights(rng, &mut b);
+                w1 = WG { ag: b, nw };
+            }
+        }
+    }
+    (w0, w1, name, search)
+}
 
 fn gen_pair(rng: &mut Rng, thorough: bool) -> (WG, WG, &'static str) {
     let directed = rng.chance(55);
@@ -795,7 +1453,21 @@ fn gen_pair(rng: &mut Rng, thorough: bool) -> (WG, WG, &'static str) {
 
 pub fn run(ctx: &mut Ctx, case: u64) {
     let mut rng = Rng::for_case(ctx.seed, "C13", case);
-    let (w0, w1, mode) = if ctx.tier_thorough && case < exhaustive_total() {
+    let prof = if cfg!(debug_assertions) { "debug" } else { "release" };
+    let exhaustive = ctx.tier_thorough && case < exhaustive_total();
+    if !exhaustive && rng.chance(3) {
+        let (w0, w1, mode, search) = gen_big(&mut rng);
+        let directed = w0.ag.directed;
+        ctx.raw(&format!("case {} mode={} d={} n0={} n1={} m0={} m1={} prof={}", case, mode, directed as u8, w0.ag.n, w1.ag.n, w0.ag.edges.len(), w1.ag.edges.len(), prof));
+        let kind = if mode == "big-u8cap" { "u8cap" } else { "any" };
+        if directed {
+            big_typed::<Directed>(ctx, &mut rng, &w0, &w1, kind, search);
+        } else {
+            big_typed::<Undirected>(ctx, &mut rng, &w0, &w1, kind, search);
+        }
+        return;
+    }
+    let (w0, w1, mode) = if exhaustive {
         let (mut a, mut b) = exhaustive_pair(case).unwrap();
         let weighted = rng.chance(35);
         let nw0 = if weighted { rand_weights(&mut rng, &mut a) } else { vec![0; a.n] };
@@ -805,13 +1477,16 @@ pub fn run(ctx: &mut Ctx, case: u64) {
         gen_pair(&mut rng, ctx.tier_thorough)
     };
     let directed = w0.ag.directed;
-    ctx.raw(&format!("case {} mode={} d={} n0={} n1={} m0={} m1={}", case, mode, directed as u8, w0.ag.n, w1.ag.n, w0.ag.edges.len(), w1.ag.edges.len()));
+    ctx.raw(&format!("case {} mode={} d={} n0={} n1={} m0={} m1={} prof={}", case, mode, directed as u8, w0.ag.n, w1.ag.n, w0.ag.edges.len(), w1.ag.edges.len(), prof));
     let rounds = if mode == "exhaustive" { 1 } else if ctx.tier_thorough { 3 } else { 2 };
     for _ in 0..rounds {
-        if directed {
-            round_d(ctx, &mut rng, &w0, &w1);
-        } else {
-            round_u(ctx, &mut rng, &w0, &w1);
+        // a third of the rounds uses one of the rarely used argument types
+        let exotic = rng.chance(if mode == "exhaustive" { 20 } else { 33 });
+        match (directed, exotic) {
+            (true, false) => round_d(ctx, &mut rng, &w0, &w1),
+            (false, false) => round_u(ctx, &mut rng, &w0, &w1),
+            (true, true) => round_exotic_d(ctx, &mut rng, &w0, &w1),
+            (false, true) => round_exotic::<Undirected>(ctx, &mut rng, &w0, &w1),
         }
     }
 }
